@@ -4090,10 +4090,14 @@ GRsetup_szip_parms(ri_info_t *ri_ptr, comp_info *c_info, int32 *cdims)
 int
 GRsetcompress(int32 riid, comp_coder_t comp_type, comp_info *cinfo)
 {
-    ri_info_t *ri_ptr; /* ptr to the image to work with */
-    comp_info  cinfo_x;
-    uint32     comp_config;
-    int        ret_value = SUCCEED;
+    ri_info_t   *ri_ptr; /* ptr to the image to work with */
+    comp_info    cinfo_x;
+    uint32       comp_config;
+    unsigned     old_comp_img, old_use_cr_drvr, old_use_buf_drvr; /* state of the image before the request */
+    comp_coder_t old_comp_type;
+    uint16       old_comp_tag;
+    comp_info    old_cinfo;
+    int          ret_value = SUCCEED;
 
     /* clear error stack and check validity of args */
     HEclear();
@@ -4140,6 +4144,14 @@ GRsetcompress(int32 riid, comp_coder_t comp_type, comp_info *cinfo)
     }
 #endif
 
+    /* remember the current state in case the request has to be refused below */
+    old_comp_img     = ri_ptr->comp_img;
+    old_comp_type    = ri_ptr->comp_type;
+    old_use_cr_drvr  = ri_ptr->use_cr_drvr;
+    old_use_buf_drvr = ri_ptr->use_buf_drvr;
+    old_comp_tag     = ri_ptr->img_dim.comp_tag;
+    memcpy(&old_cinfo, &(ri_ptr->cinfo), sizeof(comp_info));
+
     /* Mark the image as being compressed and cache args */
     if (comp_type == COMP_CODE_JPEG) {
         if (ri_ptr->img_dim.ncomps == 1)
@@ -4164,8 +4176,17 @@ GRsetcompress(int32 riid, comp_coder_t comp_type, comp_info *cinfo)
     ri_ptr->use_buf_drvr = 1;
 
     /* Make certain the image gets created */
-    if (GRIgetaid(ri_ptr, DFACC_WRITE) == FAIL)
+    if (GRIgetaid(ri_ptr, DFACC_WRITE) == FAIL) {
+        /* the request was refused (e.g. the file is not open for writing):
+           leave the image as it was, so that it can still be read */
+        ri_ptr->comp_img         = old_comp_img;
+        ri_ptr->comp_type        = old_comp_type;
+        ri_ptr->use_cr_drvr      = old_use_cr_drvr;
+        ri_ptr->use_buf_drvr     = old_use_buf_drvr;
+        ri_ptr->img_dim.comp_tag = old_comp_tag;
+        memcpy(&(ri_ptr->cinfo), &old_cinfo, sizeof(comp_info));
         HGOTO_ERROR(DFE_INTERNAL, FAIL);
+    }
 
 done:
     return ret_value;
